@@ -40,25 +40,6 @@ theorem rollback (ds : List Disp) (a : Around) (hp : a.pendingCancel = false) (b
   intro he
   simpa [he] using hb.2.1
 
-/-- the exception flag every `__aexit__` receives -/
-def exitArgs (evs : List Ev) : List Bool :=
-  evs.filterMap fun e => match e with | .exitCall _ w => some w | _ => none
-
-theorem exitArgs_enterEvs (ds : List Disp) (i : Nat) : exitArgs (enterEvs i ds) = [] := by
-  induction ds generalizing i with
-  | nil => simp [enterEvs, exitArgs]
-  | cons x xs ih => simpa [enterEvs, exitArgs] using ih (i + 1)
-
-theorem exitArgs_exitEvs (exc : Bool) (ds : List Disp) (i : Nat) : ∀ w ∈ exitArgs (exitEvs exc i ds), w = exc := by
-  induction ds generalizing i with
-  | nil => simp [exitEvs, exitArgs]
-  | cons x xs ih =>
-    intro w hw
-    simp only [exitEvs, exitArgs, List.filterMap_append, List.mem_append] at hw
-    rcases hw with hw | hw
-    · split at hw <;> simp at hw; exact hw
-    · exact ih (i + 1) w hw
-
 /-- C08.exit_receives_body_outcome: on the normal path every `__aexit__` receives the body's exception details
 (none when the body returned); on rollback it receives the failure. -/
 theorem exit_receives_body_outcome (ds : List Disp) (a : Around) (bodyRaises : Bool) :
@@ -85,43 +66,6 @@ theorem exit_receives_body_outcome (ds : List Disp) (a : Around) (bodyRaises : B
       rcases hw with hw | hw
       · have := exitArgs_enterEvs ds 0; simp only [exitArgs] at this; rw [this] at hw; simp at hw
       · exact exitArgs_exitEvs true ds 0 w hw
-
-/-- phase of an event: entering, body, exiting -/
-def phase : Ev → Nat
-  | .enterCall _ => 0
-  | .body => 1
-  | .exitCall _ _ => 2
-
-theorem phase_enterEvs (ds : List Disp) (i : Nat) : ∀ e ∈ enterEvs i ds, phase e = 0 := by
-  induction ds generalizing i with
-  | nil => simp [enterEvs]
-  | cons x xs ih =>
-    intro e he
-    simp only [enterEvs, List.mem_cons] at he
-    rcases he with rfl | he
-    · rfl
-    · exact ih (i + 1) e he
-
-theorem phase_exitEvs (exc : Bool) (ds : List Disp) (i : Nat) : ∀ e ∈ exitEvs exc i ds, phase e = 2 := by
-  induction ds generalizing i with
-  | nil => simp [exitEvs]
-  | cons x xs ih =>
-    intro e he
-    simp only [exitEvs, List.mem_append] at he
-    rcases he with he | he
-    · split at he <;> simp at he; subst he; rfl
-    · exact ih (i + 1) e he
-
-theorem pairwise_of_const (l : List Ev) (k : Nat) (h : ∀ e ∈ l, phase e = k) :
-    (l.map phase).Pairwise (· ≤ ·) := by
-  induction l with
-  | nil => simp
-  | cons x xs ih =>
-    simp only [List.map_cons, List.pairwise_cons, List.mem_map]
-    refine ⟨?_, ih (fun e he => h e (List.mem_cons_of_mem _ he))⟩
-    rintro _ ⟨e, he, rfl⟩
-    rw [h x (List.mem_cons_self ..), h e (List.mem_cons_of_mem _ he)]
-    exact Nat.le_refl _
 
 /-- C08.order: all enters come before the body, which comes before all exits. -/
 theorem order (ds : List Disp) (a : Around) (hp : a.pendingCancel = false) (bodyRaises : Bool) :
